@@ -270,8 +270,6 @@ def run(ctx):
     ctx.log("driver: %d scenarios, %d events; %d TS frames at HTTP-TS consumers, %d in HLS segments, %d RTP frames" %
             (len(scen), len(rows), nframes, nhls, nrtp))
     ctx.log("        of which %d RTP frames through Group.feedRtpPacket -> rtsp.SubSession (interleaved)" % nrg)
-    if nframes == 0 or nhls == 0 or nrtp == 0 or nrg == 0:
-        raise E.Infra("vacuous run: a consumer class received nothing")
     ctx.cov["traces_validated_against_impl"] = len(scen)
     ctx.cov["evaluations"] = nframes + nhls + nrtp
     ctx.cov["distinct_nontrivial"] = len(scen)
@@ -305,6 +303,8 @@ def run(ctx):
         E.report(ctx, sig, "trace rejected at %s (scenario %s line %d, failing parts %s): %s" %
                  (ev.get("ev"), r["sc"], r["line"], parts, json.dumps(ev)[:600]),
                  {"scenario": sc, "trace": tr[:r["line"] + 1]})
+    if not rej and (nframes == 0 or nhls == 0 or nrtp == 0 or nrg == 0):
+        raise E.Infra("vacuous run: a consumer class received nothing and nothing was rejected")
     ctx.assumptions += [
         "independent TS/PES/PSI, Annex-B, ADTS, RTP (RFC 6184/7798/3640) and SDP readers in harness/proj are the 'standards-conforming demuxer'",
         "HTTP-TS consumers are real httpts.SubSession objects on in-memory connections (synchronous writes); HLS segments are read "
